@@ -2,7 +2,7 @@
     Statement-by-statement transcription of
       shell.rs      set_env / get_env / remove_env, the lookup order inside expand_one_env
       types.rs      drain_env_tokens (loose name class), execute.rs run_proc / set_shell_vars
-      core.rs       child environment = env::vars() followed by the per-command pairs
+      core.rs       child environment = env::vars() minus the per-command names, followed by the per-command pairs
       builtins      export.rs, unset.rs, read.rs (+ tools.rs split_into_fields), cd.rs
       parser_line   unquote;  tools.rs is_env
     The process environment is an ORDERED association list (glibc setenv replaces in
@@ -143,6 +143,15 @@ Record st := mkst {
   prev : str          (* Shell.previous_dir *)
 }.
 
+(** Proposed repairs that are NOT in the tree yet (notes/C09-fix-3..5.patch).  The model is
+    parametric in them so that the same theorems cover the code before and after each repair;
+    the check instantiates the flags with what the tree under test contains.
+      fx_export  export.rs: export NAME=v also removes the shell-local NAME
+      fx_read    read.rs / tools.rs: the line is cut into at most as many fields as there are names (splitn)
+      fx_cd      cd.rs: cd without argument takes HOME like a reference does (environment, then shell
+                 variable) and fails when there is none *)
+Record fixes := mkfx { fx_export : bool; fx_read : bool; fx_cd : bool }.
+
 (** shell.rs set_env *)
 Definition set_env (s : st) (n v : str) : st :=
   match aget (envp s) n with
@@ -184,21 +193,25 @@ Inductive outcome :=
 | OStatus (ok : bool)                                      (* a builtin / assignment finished; ok = status 0 *)
 | OChild (argv : list str) (environ : alist) (dir : str)   (* an external program was started with this *)
 | OVal (v : option str)                                    (* what the reference to a name expands to *)
-| OPanic.                                                  (* the shell process dies *)
+| OPanic.                                                  (* the shell process dies (no modelled path produces it any more) *)
 
 (* ------------------------------------------------------------------ export.rs *)
 Definition expand_home (w : world) (v : str) : str :=
   if memb c_tilde v then w_tilde w v else v.
 
-Fixpoint export_loop (w : world) (s : st) (toks : list token) : st * bool :=
+Definition export_set (fx : fixes) (s : st) (n v : str) : st :=
+  if fx_export fx then mkst (adel (locals s) n) (aset (envp s) n v) (cwd s) (prev s)
+  else env_set s n v.
+
+Fixpoint export_loop (fx : fixes) (w : world) (s : st) (toks : list token) : st * bool :=
   match toks with
   | [] => (s, true)
   | (_, text) :: r =>
-      if str_eqb text s_export then export_loop w s r
+      if str_eqb text s_export then export_loop fx w s r
       else if negb (is_env text) then (s, false)
       else match split_env_strict text with
            | None => (s, false)
-           | Some (n, v) => export_loop w (env_set s n (expand_home w (unquote v))) r
+           | Some (n, v) => export_loop fx w (export_set fx s n (expand_home w (unquote v))) r
            end
   end.
 
@@ -230,6 +243,29 @@ Definition split_into_fields (s : st) (line : str) (envs : alist) : list str :=
   let ic := ifs_chars s envs in
   if is_empty ic then split_on default_seps line else split_on ic line.
 
+(** the text before the first separator, and what follows it (None: no separator) *)
+Fixpoint break_sep (seps : str) (s : str) : str * option str :=
+  match s with
+  | [] => ([], None)
+  | c :: r => if memb c seps then ([], Some r)
+              else let (f, o) := break_sep seps r in (c :: f, o)
+  end.
+
+(** str::splitn(k, chars): at most k items, the last one is the rest of the text *)
+Fixpoint splitn_on (seps : str) (k : nat) (s : str) : list str :=
+  match k with
+  | O => []
+  | S k' => match k' with
+            | O => [s]
+            | S _ => let (f, o) := break_sep seps s in
+                     f :: match o with Some r => splitn_on seps k' r | None => [] end
+            end
+  end.
+
+Definition split_into_fields_n (s : st) (line : str) (envs : alist) (k : nat) : list str :=
+  let ic := ifs_chars s envs in
+  if is_empty ic then splitn_on default_seps k line else splitn_on ic k line.
+
 Fixpoint join_sp (l : list str) : str :=
   match l with
   | [] => []
@@ -245,7 +281,7 @@ Fixpoint read_assign (s : st) (names : list str) (vals : list str) : st :=
   | n :: r => read_assign (set_env s n (match vals with v :: _ => v | [] => [] end)) r (tl vals)
   end.
 
-Definition read_run (s : st) (envs : alist) (toks : list token) (here : option str) : st * outcome :=
+Definition read_run (fx : fixes) (s : st) (envs : alist) (toks : list token) (here : option str) : st * outcome :=
   let names := match tl toks with
                | [] => [s_REPLY]
                | r => map snd r
@@ -254,37 +290,43 @@ Definition read_run (s : st) (envs : alist) (toks : list token) (here : option s
   else
     (* buffer = here-string + newline (or one line of stdin), then trim() *)
     let line := trim (match here with Some h => h ++ [c_nl] | None => [] end) in
-    (read_assign s names (split_into_fields s line envs), OStatus true).
+    (read_assign s names (if fx_read fx then split_into_fields_n s line envs (length names)
+                          else split_into_fields s line envs), OStatus true).
 
 (* ------------------------------------------------------------------ cd.rs *)
 Definition concat_strs (l : list str) : str := fold_right (fun a b => a ++ b) [] l.
 
-Definition cd_run (w : world) (s : st) (toks : list token) : st * outcome :=
+Definition cd_run (fx : fixes) (w : world) (s : st) (toks : list token) : st * outcome :=
   let args := map snd toks in
   if (2 <? N.of_nat (length args)) then (s, OStatus false)
   else
     let cur := cwd s in
     let noarg := Nat.eqb (length args) 1 in
-    let dir0 := if noarg then match aget (envp s) s_HOME with Some h => h | None => [] end
-                else concat_strs (tl args) in
-    let r1 : option str :=
-      if str_eqb dir0 s_dash then (if is_empty (prev s) then None else Some (prev s))
-      else if starts_with c_slash dir0 then Some dir0
-      else Some (cur ++ c_slash :: dir0) in
-    match r1 with
+    let dir0o : option str :=
+      if noarg then
+        (if fx_cd fx then expand_lookup s s_HOME
+         else Some (match aget (envp s) s_HOME with Some h => h | None => [] end))
+      else Some (concat_strs (tl args)) in
+    match dir0o with
     | None => (s, OStatus false)
-    | Some dir1 =>
-        if negb (w_exists w dir1) then
-          (* the message formats args[1]: out of bounds when cd was given no argument *)
-          (if noarg then (s, OPanic) else (s, OStatus false))
-        else match w_canon w dir1 with
-             | None => (s, OStatus false)
-             | Some d =>
-                 if w_chdir w d then
-                   (if str_eqb cur d then (mkst (locals s) (envp s) d (prev s), OStatus true)
-                    else (mkst (locals s) (aset (envp s) s_PWD d) d cur, OStatus true))
-                 else (s, OStatus false)
-             end
+    | Some dir0 =>
+      let r1 : option str :=
+        if str_eqb dir0 s_dash then (if is_empty (prev s) then None else Some (prev s))
+        else if starts_with c_slash dir0 then Some dir0
+        else Some (cur ++ c_slash :: dir0) in
+      match r1 with
+      | None => (s, OStatus false)
+      | Some dir1 =>
+          if negb (w_exists w dir1) then (s, OStatus false)
+          else match w_canon w dir1 with
+               | None => (s, OStatus false)
+               | Some d =>
+                   if w_chdir w d then
+                     (if str_eqb cur d then (mkst (locals s) (envp s) d (prev s), OStatus true)
+                      else (mkst (locals s) (aset (envp s) s_PWD d) d cur, OStatus true))
+                   else (s, OStatus false)
+               end
+      end
     end.
 
 (* ------------------------------------------------------------------ unset.rs *)
@@ -297,17 +339,23 @@ Definition unset_run (s : st) (toks : list token) : st * outcome :=
 (* ------------------------------------------------------------------ execute.rs run_proc + core.rs *)
 (** [toks] = the tokens of one simple command after parse_line and do_expansion (no pipe, no
     redirection, not backgrounded); [here] = the text of a here-string if one was given. *)
-Definition run_proc (w : world) (s : st) (toks : list token) (here : option str) : st * outcome :=
+Definition ahas (m : alist) (k : str) : bool := match aget m k with Some _ => true | None => false end.
+
+(** core.rs: the inherited entries whose name is not a per-command name, then the per-command pairs *)
+Definition child_env (inherited envs : alist) : alist :=
+  filter (fun p => negb (ahas envs (fst p))) inherited ++ envs.
+
+Definition run_proc (fx : fixes) (w : world) (s : st) (toks : list token) (here : option str) : st * outcome :=
   let (envs, rest) := drain toks [] in
   match rest with
   | [] => (set_shell_vars s envs, OStatus true)
   | (_, c0) :: _ =>
-      if str_eqb c0 s_cd then cd_run w s rest
+      if str_eqb c0 s_cd then cd_run fx w s rest
       else if str_eqb c0 s_export then
-        let (s', ok) := export_loop w s rest in (s', OStatus ok)
-      else if str_eqb c0 s_read then read_run s envs rest here
+        let (s', ok) := export_loop fx w s rest in (s', OStatus ok)
+      else if str_eqb c0 s_read then read_run fx s envs rest here
       else if str_eqb c0 s_unset then unset_run s rest
-      else (s, OChild (map snd rest) (envp s ++ envs) (cwd s))
+      else (s, OChild (map snd rest) (child_env (envp s) envs) (cwd s))
   end.
 
 (** one step of a history: a command, or a probe of what a reference to a name yields *)
@@ -315,20 +363,20 @@ Inductive cmd :=
 | CRun (toks : list token) (here : option str)
 | CProbe (n : str).
 
-Definition step (w : world) (s : st) (c : cmd) : st * outcome :=
+Definition step (fx : fixes) (w : world) (s : st) (c : cmd) : st * outcome :=
   match c with
-  | CRun toks here => run_proc w s toks here
+  | CRun toks here => run_proc fx w s toks here
   | CProbe n => (s, OVal (expand_lookup s n))
   end.
 
 (** a history; nothing runs after the shell died *)
-Fixpoint run_hist (w : world) (s : st) (cs : list cmd) : st * list outcome :=
+Fixpoint run_hist (fx : fixes) (w : world) (s : st) (cs : list cmd) : st * list outcome :=
   match cs with
   | [] => (s, [])
   | c :: r =>
-      let (s1, o) := step w s c in
+      let (s1, o) := step fx w s c in
       match o with
       | OPanic => (s1, [OPanic])
-      | _ => let (s2, os) := run_hist w s1 r in (s2, o :: os)
+      | _ => let (s2, os) := run_hist fx w s1 r in (s2, o :: os)
       end
   end.
